@@ -4,7 +4,7 @@ import re
 
 from ..model import AnalysisError, Model, ClassInfo, walk_no_nested, norm_stmt, names_in
 from ..callgraph import CallGraph
-from .. import flow, dispatch, sem
+from .. import flow, dispatch, sem, siblings
 
 EXPLANATION = (
     'Each clause is an obligation X.690 10-11 puts on a DER encoder that is visible as a call or class relation: (R1) the DER dispatch compiles '
@@ -199,56 +199,14 @@ def check(ctx):
             ctx.violation('C03.R4', DER, cell.ctor or tab.func, "%s::Compiler dispatch['%s']" % (DER, kind),
                           'DER %s must be produced by %s (X.690 11.7/11.8: no local time, no fraction trailing zeros, seconds present); the encode path calls %s'
                           % (kind, must, sorted(n for n in names if 'time' in n)), stmt='restricted time form')
-    # the restricted time formatters place every numeric field of the date with a fixed, zero-filled width: through strftime
-    # directives, or through a format spec such as {:02d} / {:06d} / %06d.  A field formatted with `{}` / str() loses its
-    # leading zeros (fraction .05 -> .5), which changes the value the text denotes.
-    FIELDS = {'year': 4, 'month': 2, 'day': 2, 'hour': 2, 'minute': 2, 'second': 2, 'microsecond': 6}
-    init_mod = model.mod(INIT)
-    for fname, fdef in sorted(init_mod.functions.items()):
-        if not fname.endswith('_from_datetime'):
-            continue
-        bad = []
-        nfmt = 0
-        for n in walk_no_nested(fdef):
-            parts = []       # (expression, format spec or None)
-            if isinstance(n, ast.Call) and isinstance(n.func, ast.Attribute) and n.func.attr == 'format' and isinstance(n.func.value, ast.Constant) and isinstance(n.func.value.value, str):
-                specs = re.findall(r'\{(\d*)(?::([^}]*))?\}', n.func.value.value)
-                for i, a_ in enumerate(n.args):
-                    spec = None
-                    auto = [sp for idx, sp in specs if idx == ''] if all(idx == '' for idx, _ in specs) else None
-                    if auto is not None and i < len(auto):
-                        spec = auto[i]
-                    else:
-                        for idx, sp in specs:
-                            if idx == str(i):
-                                spec = sp
-                    parts.append((a_, spec))
-            elif isinstance(n, ast.JoinedStr):
-                for v_ in n.values:
-                    if isinstance(v_, ast.FormattedValue):
-                        spec = ''.join(c_.value for c_ in v_.format_spec.values if isinstance(c_, ast.Constant)) if v_.format_spec is not None else None
-                        parts.append((v_.value, spec))
-            elif isinstance(n, ast.BinOp) and isinstance(n.op, ast.Mod) and isinstance(n.left, ast.Constant) and isinstance(n.left.value, str):
-                specs = re.findall(r'%([0-9]*)[dis]', n.left.value)
-                args_ = n.right.elts if isinstance(n.right, ast.Tuple) else [n.right]
-                for i, a_ in enumerate(args_):
-                    parts.append((a_, ('0' + specs[i][1:] + 'd') if i < len(specs) and specs[i].startswith('0') else (specs[i] if i < len(specs) else None)))
-            elif isinstance(n, ast.Call) and isinstance(n.func, ast.Name) and n.func.id in ('str', 'repr') and n.args:
-                parts.append((n.args[0], None))
-            for e_, spec in parts:
-                for x_ in ast.walk(e_):
-                    if isinstance(x_, ast.Attribute) and x_.attr in FIELDS:
-                        nfmt += 1
-                        width = FIELDS[x_.attr]
-                        ok_ = spec is not None and re.match(r'^0%d[d]?$' % width, spec or '') is not None
-                        if not ok_:
-                            bad.append((n, x_.attr, spec))
+    # the restricted time formatters place every numeric field of the date with a fixed, zero-filled width (siblings.unpadded_date_fields)
+    for fdef, nfmt, bad in siblings.unpadded_date_fields(model, lambda name: name.startswith('restricted_')):
         ctx.instance('C03.R4', '%s: %d numeric date fields formatted outside strftime, all zero-filled to their width' % (Model.qual(fdef), nfmt), 'ok' if not bad else 'VIOLATION',
                      nontrivial=nfmt > 0, node=fdef, file=INIT)
-        for n, attr, spec in bad:
+        for n, attr, spec, width in bad:
             ctx.violation('C03.R4', INIT, n, Model.qual(fdef),
                           'the %s field is formatted with %s instead of a zero-filled width of %d: leading zeros are lost (a fraction .05 becomes .5, 07 minutes become 7), so the time string '
-                          'denotes another value and is not the DER form' % (attr, ('`{:%s}`' % spec) if spec else '`{}` / str()', FIELDS[attr]), stmt='unpadded %s' % attr)
+                          'denotes another value and is not the DER form' % (attr, ('`{:%s}`' % spec) if spec else '`{}` / str()', width), stmt='unpadded %s' % attr)
     if n4 < 15:
         raise AnalysisError('C03.R4 examined only %d cells' % n4)
 
